@@ -339,6 +339,7 @@ package types
 
 //@ func validateEntSigners(i) (err)
 //@   props C16 C03
+//@   nopanic
 //@   ensures err == nil ==> is_string(i) && len(unbox_string(i)) > 0
 //@   ensures err == nil ==> forall j int :: {splitOn(unbox_string(i), ",")[j]} 0 <= j && j < len(splitOn(unbox_string(i), ",")) ==> validBech32(splitOn(unbox_string(i), ",")[j])
 //@   ensures @accepts_every_wellformed_list is_string(i) && len(unbox_string(i)) > 0 && len(splitOn(unbox_string(i), ",")) >= 1 && (forall j int :: {splitOn(unbox_string(i), ",")[j]} 0 <= j && j < len(splitOn(unbox_string(i), ",")) ==> validBech32(splitOn(unbox_string(i), ",")[j])) ==> err == nil
@@ -347,6 +348,7 @@ package types
 
 //@ func Params.Validate(p) (err)
 //@   props C16 C03
+//@   nopanic
 //@   let signers := splitOn(p.EntSigners, ",")
 //@   ensures @denom err == nil ==> validDenom(p.Denom)
 //@   ensures @positive err == nil ==> p.MinAccepts >= 1 && p.DecisionTimeLimit >= 1
